@@ -77,7 +77,9 @@ def _ops():
     ops += [('get_sheet', 0), ('get_sheet', 'S'), ('get_sheet', 'T 2'), ('get_sheet', 'E'), ('get_sheet', '1'), ('get_sheet', 3)]
     ops += [('other_executor', 'A1', 77, 'C1'), ('other_executor', 'I2', 0, 'K2')]
     ops += [('set_cells', [('A1', 5)]), ('set_cells', [(('S', 'J', 12), 1)]), ('set_cells', [('EA1', 2), ('A2', 4)]),
-            ('set_cells', [('A1', 6), ('AB2', 0)])]
+            ('set_cells', [('A1', 6), ('AB2', 0)]),
+            # exactly one row below / one column right of the used range (J12 above lies several rows beyond it)
+            ('set_cells', [(('S', 'B', 5), 3)]), ('set_cells', [(('T 2', 'C', 1), 4)])]
     return ops
 
 
